@@ -4,6 +4,7 @@ check of the property it breaks, undo it. Prints which checks catch which change
 Never leaves /repo modified."""
 import json, os, subprocess, sys
 ROOT = os.path.dirname(os.path.abspath(__file__))
+REPO = os.environ.get("A10_REPO", "/repo")  # seedrun.sh points this at a private clone
 only = sys.argv[1:]
 rows = []
 for d in sorted(os.listdir(os.path.join(ROOT, "seeded"))):
@@ -13,10 +14,10 @@ for d in sorted(os.listdir(os.path.join(ROOT, "seeded"))):
     meta = json.load(open(os.path.join(p, "meta.json")))
     prop = meta["property"]
     patch = os.path.join(p, "patch.diff")
-    st = subprocess.run(["git", "-C", "/repo", "status", "--porcelain", "--untracked-files=no"], capture_output=True, text=True).stdout.strip()
+    st = subprocess.run(["git", "-C", REPO, "status", "--porcelain", "--untracked-files=no"], capture_output=True, text=True).stdout.strip()
     if st:
-        print("refusing: /repo has local changes"); sys.exit(2)
-    a = subprocess.run(["git", "-C", "/repo", "apply", patch], capture_output=True, text=True)
+        print(f"refusing: {REPO} has local changes"); sys.exit(2)
+    a = subprocess.run(["git", "-C", REPO, "apply", patch], capture_output=True, text=True)
     if a.returncode != 0:
         rows.append((d, prop, "PATCH-DOES-NOT-APPLY", a.stderr.strip()[:100])); continue
     try:
@@ -27,7 +28,7 @@ for d in sorted(os.listdir(os.path.join(ROOT, "seeded"))):
             v = [l for l in r.stdout.splitlines() if l.startswith("VIOLATION")]
             res.append((pr, r.returncode, v[:2]))
     finally:
-        subprocess.run(["git", "-C", "/repo", "checkout", "--", "."])
+        subprocess.run(["git", "-C", REPO, "checkout", "--", "."])
     caught = any(rc == 1 and v for _, rc, v in res)
     rows.append((d, prop, "CAUGHT" if caught else "MISSED", "; ".join(f"{pr}: rc={rc} {' | '.join(x[:110] for x in v)}" for pr, rc, v in res)))
     subprocess.run(["rm", "-rf", os.path.join(ROOT, "replays")])
